@@ -57,7 +57,11 @@ class ProbeDense(LinearDense):
 class ProbePlain(Module):
     def __init__(self, data, nested=False):
         Module.__init__(self)
-        if nested:
+        if nested == "deep":               # the attribute sits two modules below the hooked one
+            self.inner = Module()
+            self.inner.core = Module()
+            self.inner.core.register_buffer("data", data)
+        elif nested:
             self.inner = Module()
             self.inner.register_buffer("data", data)
         else:
@@ -187,8 +191,8 @@ class HooksImpl:
         else:
             shape = tuple(self.real.get("shape", (2, 3)))
             x0 = torch.tensor(self.real.get("x0", [0.0] * math.prod(shape)), dtype=torch.float32).reshape(shape)
-            self.module = ProbePlain(x0, nested=(target == "nested"))
-            self.attr = "inner.data" if target == "nested" else "data"
+            self.module = ProbePlain(x0, nested=("deep" if target == "deep" else target == "nested"))
+            self.attr = {"nested": "inner.data", "deep": "inner.core.data"}.get(target, "data")
             self.inputs = ()
         self.module.__dict__["_probe_log"] = self.log
         self.module.train(bool(init["training"]))
